@@ -318,7 +318,11 @@ class Interp:
         raise _Continue()
 
     def exec_FunctionDef(self, node, env):
-        env.set(node.name, Closure(node, env, self))
+        fn = Closure(node, env, self)
+        for dec in reversed(node.decorator_list):
+            d = self.eval(dec, env)
+            fn = self.call(d, [fn], {}, node.lineno)
+        env.set(node.name, fn)
 
     def exec_With(self, node, env):
         for item in node.items:
@@ -1086,6 +1090,9 @@ class Interp:
             return f.fn(self, line, *args, **kwargs)
         if isinstance(f, BuiltinRef):
             return self.call_builtin(f.name, args, kwargs, line)
+        h = self.unit.call_hook(self, f, args, kwargs, line)
+        if h is not NotImplemented:
+            return h
         if callable(f) and is_concrete(args) and is_concrete(kwargs):
             return f(*args, **kwargs)
         raise Unsupported(f'call of {f!r}')
@@ -1097,15 +1104,22 @@ class Interp:
         params = [p.arg for p in a.args]
         defaults = a.defaults
         nd = len(params) - len(defaults)
+        kwargs = dict(kwargs)
         for i, p in enumerate(params):
             if i < len(args):
                 env.set(p, args[i])
             elif p in kwargs:
-                env.set(p, kwargs[p])
+                env.set(p, kwargs.pop(p))
             elif i >= nd:
                 env.set(p, self.eval(defaults[i - nd], c.env))
             else:
                 raise Unsupported('closure missing arg')
+        if a.vararg:
+            env.set(a.vararg.arg, tuple(args[len(params):]))
+        elif len(args) > len(params):
+            raise Unsupported('closure: too many positional arguments')
+        if a.kwarg:
+            env.set(a.kwarg.arg, kwargs)
         if isinstance(node, ast.Lambda):
             return self.eval(node.body, env)
         try:
